@@ -1,6 +1,6 @@
 #!/bin/bash
 # tools/seedrun.sh <patch.diff> <check args...> : apply a seeded change to /repo, run ./check, undo. Development aid.
-p="$1"; shift
+p="$(realpath "$1")"; shift
 git -C /repo apply "$p" || { echo "patch does not apply"; exit 9; }
 cd /verif && ./check "$@" --no-evidence; rc=$?
 git -C /repo checkout -- . ; git -C /repo status --short
